@@ -30,6 +30,7 @@ func c12(c *eng.Ctx, r *eng.Report) {
 		"R12.3 the readOnly flag is only set/reset inside Run under `readOnly && !in.readOnly`; " +
 		"R12.4 AccountDB.Prepare re-initialises every per-transaction scratch field and the block executor calls it before each transaction's BeforeExecute and reads logs by the same hash; " +
 		"R12.5 every raw state mutation is preceded by its journal entry on every path (C04's R4.2 re-run: RevertToSnapshot can only undo what was journaled). " +
+		"R12.6 every journal entry's undo performs exactly its paired raw writes, each on every path, and nothing else (C04's R4.3 re-run: a failed frame leaves no trace only if the undo neither skips a restore nor edits state the entry did not record, such as the set of slots still to be flushed). " +
 		"Not decided: value equality of the state before/after a failed frame."
 	r.Assume = []string{
 		"VTA call graph over-approximates dynamic callees (sound for reachability rules)",
@@ -49,6 +50,10 @@ func c12(c *eng.Ctx, r *eng.Report) {
 		r.Obls = append(r.Obls, o)
 	}
 	r.Min("R12.5", 12)
+	// R12.6: …and undone exactly — each entry's undo performs its paired raw writes, all of them on every path,
+	// and nothing else (C04's R4.3 under this property's id: a frame that fails leaves no trace only if the
+	// undo neither skips a restore nor touches state the entry did not record, e.g. the flush set)
+	c04UndoAs(c, r, "R12.6", nil, 12)
 }
 
 func isStateDBCall(s eng.Site, method string) bool {
